@@ -157,8 +157,10 @@ def abstract_script(fmt, script, mock=None, pbf_fail=False, area_skipped=False):
             elif fmt == 'mock':
                 e = wb(1, g + 1)
             else:
-                # current code: the block is encoded as "" (= end-of-data marker: finding
-                # empty-block-ends-output); with the proposed fix write_buffer skips the buffer
+                # current tree (fix fb588a3): write_buffer skips a buffer without writable objects
+                # ('-', the model's main line `repairedMachine`).  Pre-fix behaviour: the block is
+                # encoded as "" = the end-of-data marker ('z'); if that ever comes back the M3
+                # monitor raises empty-block-ends-output:<fmt> (regression probe)
                 e = '-' if area_skipped else 'z'
             calls.append('P%s/%s' % (ib, e))
         elif k == 'i':
@@ -318,7 +320,7 @@ def run(ctx):
         'write makes gzwrite return 0 or surfaces no later than gzclose_w != Z_OK; libbz2 on stdio — BZ2_bzWrite / BZ2_bzWriteClose64 report '
         'BZ_IO_ERROR when fwrite/fflush/ferror fail, nbytes_out = bytes handed to stdio; fclose reports the flush/close error',
         'Queue operations are atomic in WriterSM (their lock structure is C19)',
-        'fairness of the OS scheduler (threads_finish is "no stuck state"; the harness watchdog checks actual termination)',
+        "threads_finish_progress is proved in the model where a blocked thread has no step (the real push on a full queue polls with a 10 ms timed wait); the harness watchdog checks actual termination",
     ]
 
     # ---- 1. proofs ---------------------------------------------------------------
@@ -485,7 +487,8 @@ def run(ctx):
     for fmt in ('opl', 'xml', 'pbf'):
         ops.append(('run fmt=%s comp=gz fsync=0 script=%s fault=dup' % (fmt, SCRIPT), dict(fmt=fmt, comp='gz', fs=0, sc=SCRIPT, fault='dup', ctor=True)))
         ops.append(('run fmt=%s comp=bz2 fsync=0 script=%s fault=fdopen' % (fmt, SCRIPT), dict(fmt=fmt, comp='bz2', fs=0, sc=SCRIPT, fault='fdopen', ctor=True)))
-    # the block that encodes to the empty string (see Props: CloseOkMeansAllHandedOver is refuted)
+    # regression probes for the fixed defect empty-block-ends-output (fb588a3): a buffer holding only an Area
+    # (Props: close_ok_all_handed_over holds for the repaired writer; the pre-fix variant is refuted)
     for fmt in ('opl', 'xml', 'pbf'):
         for sc in ('b2,a1,b2,c', 'a1,b2,c'):
             ops.append(('run fmt=%s comp=none fsync=0 script=%s' % (fmt, sc), dict(fmt=fmt, comp='none', fs=0, sc=sc, fault='none', area=True)))
